@@ -333,6 +333,21 @@ def part_arrays(ctx) -> None:
                 if len(s) < elen * 2:
                     continue
                 body = s[2 : elen * 2]
+                # sentinel-valued elements (unconfigured zone, sensor fault, no demand): words 7FFF / FFFF / 0000 / 7F.. / FF..
+                # at every 2- and 4-digit boundary - a random draw meets 7FFF7FFF once in 2^32
+                roll = rng.random()
+                if roll < 0.12:
+                    body = ("7FFF" * elen)[: len(body)]
+                elif roll < 0.2:
+                    body = (body[:2] + "7FFF" * elen)[: len(body)]
+                elif roll < 0.26:
+                    body = ("FF" * elen)[: len(body)]
+                elif roll < 0.32:
+                    body = ("00" * elen)[: len(body)]
+                elif roll < 0.4:
+                    k = 2 * rng.randrange(max(1, len(body) // 2 - 1))
+                    body = (body[:k] + rng.choice(("7FFF", "FFFF", "7F", "FF", "EF", "0000")) + body[k:])[: len(body)]
+                    body = body + s[2:][len(body) : elen * 2 - 2] if len(body) < elen * 2 - 2 else body
                 idx = f"{rng.randrange(12 if code not in ('22C9', '3150') else 8):02X}"
                 if idx in used:
                     continue
